@@ -97,6 +97,10 @@ def slic(array, spacer=16, m=1.0, max_iters=128):
     max_iters = int(max_iters)
     if max_iters < 1:
         raise ValueError('mahotas.segmentation.slic: `max_iters` must be at least 1 (got {0})'.format(max_iters))
+    m = float(m)
+    if not (m*m < 1e18):
+        # the kernel compares distances against 1e21: a larger (or NaN) weight leaves pixels unassigned
+        raise ValueError('mahotas.segmentation.slic: `m` must be a finite number below 1e9 (got {0})'.format(m))
     labels = np.zeros((array.shape[0], array.shape[1]), dtype=np.intc)
     labels = labels.copy()
     n = _labeled.slic(array, labels, int(spacer), float(m), int(max_iters))
